@@ -130,7 +130,14 @@ func (s *set[ElementType]) replace(elements ds.ReadableSet[ElementType]) (applie
 	s.readableSet.mutex.Lock()
 	defer s.readableSet.mutex.Unlock()
 
-	return ds.NewSetMutations[ElementType](elements.ToSlice()...).WithDeletedElements(s.value.Replace(elements)), s.uniqueUpdateID.Next(), s.updateCallbacks.Values()
+	// report the true difference to the subscribers: elements that are retained are neither added nor deleted
+	newElements := ds.NewSet(elements.ToSlice()...)
+	addedElements := newElements.Filter(func(element ElementType) bool { return !s.value.Has(element) })
+	deletedElements := s.value.Filter(func(element ElementType) bool { return !newElements.Has(element) })
+
+	s.value.Replace(newElements)
+
+	return ds.NewSetMutations[ElementType]().WithAddedElements(addedElements).WithDeletedElements(deletedElements), s.uniqueUpdateID.Next(), s.updateCallbacks.Values()
 }
 
 // endregion ///////////////////////////////////////////////////////////////////////////////////////////////////////////
